@@ -13,7 +13,7 @@ from evalutil import gen_env, eval_jobs, as_bool, vnum
 
 S = Sym
 PROPERTY = 'C09'
-PROPS_MODULES = ['C09', 'C09b', 'C09c', 'Hpl.Lemmas.Eval', 'Hpl.Lemmas.OptList']
+PROPS_MODULES = ['C09', 'C09b', 'C09c', 'C14c', 'Hpl.Lemmas.Eval', 'Hpl.Lemmas.OptList']
 ASSUMPTIONS = ['equivalence is judged as refinement on the valuations where every returned conjunct evaluates without error '
                '(DESIGN §6 C09: the hoisted conjunct `len(d) = 0 or p` is evaluated even on an empty domain)']
 
